@@ -39,24 +39,14 @@ _WS_LABELS = None
 
 
 def site_label(lab):
-    """decoration class used in the site: the inserted/substituted character class without the position; all
-    white space / control characters that are not in the clean-up table count as one class"""
-    global _WS_LABELS
-    if _WS_LABELS is None:
-        cm = G.char_map()
-        _WS_LABELS = set(G.char_class(w) for w in common.WHITESPACE if w not in cm)
+    """decoration family used in the site (not the character, not the position): which concrete separator or
+    look-alike exposes a root cause varies from seed to seed, the family does not.  Everything that adds characters
+    the clean-up removes - inserted separators / white space / look-alikes, surrounding white space, re-grouping -
+    is one family."""
     p = lab.split(':')
-    if p[0] == 'ws':
-        c = p[2] if len(p) > 2 else 'whitespace'
-        return 'insert:' + ('whitespace' if c in _WS_LABELS else c)
-    if p[0] == 'insert':
-        c = ':'.join(p[1:-1])
-        return 'insert:' + ('whitespace' if c in _WS_LABELS else c)
-    if p[0] == 'case':
-        return 'case'
-    if p[0] == 'prefix':
-        return 'prefix'
-    return lab
+    if p[0] in ('ws', 'insert', 'spread'):
+        return 'insert'
+    return p[0]
 
 
 def _compare(mod, x, y, kw):
